@@ -441,8 +441,17 @@ inductive PMethod where
   | unset | inc | exc
   deriving DecidableEq
 
+/-- `method = next(('include' if value else 'exclude' for field, value in options.items()
+    if field != '_id'), None)`: the first field other than `_id` tells an inclusion from an
+    exclusion, wherever `_id` stands -/
+def aggInitMethod : Fields → PMethod
+  | [] => .unset
+  | (field, value) :: r =>
+    if field != "_id" then (if value.truthy then .inc else .exc) else aggInitMethod r
+
 /-- the loop of `_handle_project_stage` over `options.items()` for flag values:
-    returns the method and the filter list -/
+    returns the method and the filter list (in an exclusion `_id: 1` / `_id: True` is accepted:
+    `value not in (1, True)`) -/
 def aggScan : Fields → PMethod → List String → R (PMethod × List String)
   | [], m, acc => .ok (m, acc)
   | (field, value) :: r, m, acc =>
@@ -452,7 +461,8 @@ def aggScan : Fields → PMethod → List String → R (PMethod × List String)
         if m = .unset && (field != "_id" || value.truthy) then
           .ok (if value.truthy then .inc else .exc)
         else if m = .inc && !value.truthy && field != "_id" then .error .opFail
-        else if m = .exc && value.truthy then .error .opFail
+        else if m = .exc && value.truthy && (field != "_id" || !(pyEq value (.int 1))) then
+          .error .opFail
         else .ok m
       match step with
       | .error e => .error e
@@ -462,7 +472,7 @@ def aggScan : Fields → PMethod → List String → R (PMethod × List String)
     (aggregate.py:1547-1549): `include_id = options.get('_id')` is `None` when absent, and
     `None is not False and None != 0` holds, exactly as for the default `1` used here -/
 def aggFilterList (options : Fields) : R (PMethod × List String) := do
-  let (m, fl) ← aggScan options .unset []
+  let (m, fl) ← aggScan options (aggInitMethod options) []
   let idIncluded : Bool := !(pyEq ((dget "_id" options).getD (.int 1)) (.int 0))
   pure (m, if (m = .inc) == idIncluded then fl ++ ["_id"] else fl)
 
